@@ -402,6 +402,9 @@ void UtilContext::print16(const char *token)
 
     printf(" %04x", num);
 
+    // Stop instead of wrapping around to address 0.
+    if (end - start <= 2) { break; }
+
     start = start + 2;
   }
 
@@ -465,6 +468,9 @@ void UtilContext::print32(const char *token)
     }
 
     printf(" %08x", num);
+
+    // Stop instead of wrapping around to address 0.
+    if (end - start <= 4) { break; }
 
     start = start + 4;
   }
